@@ -97,6 +97,9 @@ func genCommands(r *rand.Rand, profile string, env *codecEnv) []*pb.Command {
 	api := func() *pb.Command {
 		g := newMG(r, false, 256*1024)
 		c := g.gen(cmdType).(*pb.Command)
+		for c.SizeVT() > 3<<20 { // production reads messages into a 4 MiB buffer; a table snapshot holds single pairs (values <= 2 MiB)
+			c = newMG(r, false, 64*1024).gen(cmdType).(*pb.Command)
+		}
 		if c.SizeVT() == 0 {
 			c.Type = pb.Command_DUMMY // a message with an empty encoding is no message for a byte framing
 		}
@@ -719,6 +722,11 @@ func planFor(r *rand.Rand, c streamCase) streamPlan {
 	p.Limiter = p.Dir == "snapshot" && r.Intn(4) == 0
 	p.EOFWithData = r.Intn(3) == 0
 	p.ZeroReads = r.Intn(5) == 0
+	if p.Dir == "restore" {
+		// BackupServer.Restore keeps the first message (info) across later receives, which grpc allows:
+		// every received message owns its buffer there. Overwriting is only meaningful for the pooled receivers.
+		p.Poison = false
+	}
 	p.CopyBuf = []int{1, 7, 4096, 32 * 1024, 1 << 20, 1<<20 + 13, 3 << 20}[r.Intn(7)]
 	return p
 }
@@ -759,15 +767,44 @@ func compareSeq(exp, got [][]byte) (class, detail string) {
 	return class, detail
 }
 
+type pendingViolation struct {
+	sig, what string
+	witness   streamWitness
+	poisoned  bool
+}
+
+// runStreamCase runs one stream case. A case that fails while the stand-in transport overwrites
+// each receive buffer at the next receive is re-run with grpc's default buffer life cycle (every
+// message owns its buffer); if it only fails in the stricter model it is not a verdict.
 func runStreamCase(se *streamEnv, c streamCase) {
+	v := runStreamCaseOnce(se, c, false)
+	if v != nil && v.poisoned {
+		v2 := runStreamCaseOnce(se, c, true)
+		if v2 == nil {
+			se.r.Count("streams_failing_only_with_overwritten_receive_buffer", 1)
+			se.r.Inconclusive(fmt.Sprintf("stream case %d fails only when a receive buffer is overwritten at the next receive (not grpc's default life cycle): %s: %s", c.Idx, v.sig, v.what))
+			return
+		}
+		v = v2
+	}
+	if v != nil {
+		violationOnce(se.r, v.sig, v.what, v.witness)
+	}
+}
+
+func runStreamCaseOnce(se *streamEnv, c streamCase, noPoison bool) (pv *pendingViolation) {
 	r := se.r
 	rnd := caseRand(c.Seed)
 	plan := planFor(rnd, c)
+	if noPoison {
+		plan.Poison = false
+	}
 	cmds := genCommands(rnd, plan.Profile, se.ce)
 	w := streamWitness{Case: c, Plan: plan, Commands: len(cmds), FirstCmds: describeCmds(cmds, 6)}
 	fail := func(sig, stage, detail string) {
 		w.Stage, w.Detail = stage, detail
-		violationOnce(r, sig, fmt.Sprintf("%s stream (%s → %s, %s cuts, %s transport), %d commands: %s: %s", plan.Dir, plan.Send, plan.Recv, plan.Cuts, plan.Transport, len(cmds), stage, detail), w)
+		pv = &pendingViolation{sig: sig, witness: w, poisoned: plan.Poison,
+			what: fmt.Sprintf("%s stream (%s → %s, %s cuts, %s transport), %d commands: %s: %s", plan.Dir, plan.Send, plan.Recv, plan.Cuts, plan.Transport, len(cmds), stage, detail)}
 	}
 	broken := func(why string) { r.Inconclusive(fmt.Sprintf("stream case %d: %s", c.Idx, why)) }
 
